@@ -24,6 +24,11 @@ pub struct Spec {
     pub reader_cache: CacheSpec,
     /// replay a single crash point: (index of the op in hist.ops, point number)
     pub only: Option<(usize, usize)>,
+    /// Some(seed): every publish meets one transient storage fault at a seeded operation index; a publish that
+    /// fails on it is repeated without the fault (what a failed publish leaves behind is C10's subject), one that
+    /// succeeds regardless is analysed like any other
+    #[serde(default)]
+    pub read_fault_seed: Option<u64>,
 }
 
 fn gen(rng: &mut Rng, tier: Tier) -> Spec {
@@ -38,6 +43,7 @@ fn gen(rng: &mut Rng, tier: Tier) -> Spec {
         subsets: if thorough { 12 } else { 3 },
         reader_cache: gen_cache(rng),
         only: None,
+        read_fault_seed: if rng.chance(1, 3) { Some(rng.next_u64()) } else { None },
     }
 }
 
@@ -104,7 +110,35 @@ async fn run_t<TC: ModelCfg>(spec: Spec) -> Out {
         };
         let oc = model.classify(batch);
         let _ = store.take_commits();
-        let res = dir.publish(to_akd_batch(batch)).await;
+        let mut res = {
+            if let Some(seed) = spec.read_fault_seed {
+                let k = Rng::new(crate::rng::mix(&[seed, oi as u64])).below(40);
+                let base = sched::db_ops_so_far(0);
+                sched::set_fault_plan(|f| f.fail_at.push((0, base + k)));
+            }
+            dir.publish(to_akd_batch(batch)).await
+        };
+        if spec.read_fault_seed.is_some() {
+            sched::set_fault_plan(|f| f.fail_at.clear());
+            if res.is_err() && oc == PublishOutcome::Advanced {
+                out.p("publish_failed_on_the_injected_fault_and_was_repeated");
+                for _ in 0..2000 {
+                    if sched::pending_count() == 0 {
+                        break;
+                    }
+                    tokio::time::sleep(std::time::Duration::from_millis(2)).await;
+                }
+                let _ = store.take_commits();
+                res = dir.publish(to_akd_batch(batch)).await;
+                if res.is_err() {
+                    // the failed attempt left something behind: C10's subject, this run is not judged further
+                    out.p("repeated_publish_failed_(run_not_judged)");
+                    return out;
+                }
+            } else if oc == PublishOutcome::Advanced {
+                out.p("publish_unaffected_by_the_injected_fault_position");
+            }
+        }
         let prev = model.at_epoch(model.epoch);
         model.publish(batch);
         if oc != PublishOutcome::Advanced {
@@ -300,7 +334,7 @@ impl Arm for C11 {
         out
     }
     fn rule(&self) -> String {
-        "one evaluation = one seeded publish history (<= 8 labels, <= 10 epochs) on the real Directory; the record batch of every commit is intercepted and for EVERY prefix length of a seeded permutation of its non-epoch records (thorough; quick: 0, 1, m-1, m and seeded lengths) plus seeded arbitrary subsets, the storage state 'previous state + those records' is materialised and a fresh ReadOnlyDirectory (cached or not, per run) and a fresh Directory are opened on it: epoch hash must be the previous pair, every label's lookup/history and audits must verify to the previous state, labels first published in the unfinished epoch must be unknown; with the epoch record applied the new epoch must be served completely. It is also checked that the commit hands the database exactly one batch whose last record is the epoch record. non-trivial crash point = a proper, non-empty subset of the non-epoch records; distinct = distinct storage digests".into()
+        "one evaluation = one seeded publish history (<= 8 labels, <= 10 epochs) on the real Directory (in a third of the cases every publish meets one transient storage fault at a seeded operation index 0..39: a publish failing on it is repeated fault-free, one that goes through regardless is analysed as it is); the record batch of every commit is intercepted and for EVERY prefix length of a seeded permutation of its non-epoch records (thorough; quick: 0, 1, m-1, m and seeded lengths) plus seeded arbitrary subsets, the storage state 'previous state + those records' is materialised and a fresh ReadOnlyDirectory (cached or not, per run) and a fresh Directory are opened on it: epoch hash must be the previous pair, every label's lookup/history and audits must verify to the previous state, labels first published in the unfinished epoch must be unknown; with the epoch record applied the new epoch must be served completely. It is also checked that the commit hands the database exactly one batch whose last record is the epoch record. non-trivial crash point = a proper, non-empty subset of the non-epoch records; distinct = distinct storage digests".into()
     }
     fn assumptions(&self) -> Vec<String> {
         vec![
